@@ -190,6 +190,44 @@ class Func:
             return [t["normal"], t["unwind"]]
         return []
 
+    def acyclic_prefix(self):
+        """Blocks not reachable from any block that lies on a cycle, in topological order.
+        Used to read facts about the part of a function that precedes its loops."""
+        ids = [b["id"] for b in self.blocks]
+        succ = {i: self.succs(self.bid[i]) for i in ids}
+        # reachability closure (small functions)
+        reach = {i: set(succ[i]) for i in ids}
+        changed = True
+        while changed:
+            changed = False
+            for i in ids:
+                add = set()
+                for j in reach[i]:
+                    add |= reach[j]
+                if not add <= reach[i]:
+                    reach[i] |= add
+                    changed = True
+        cyc = {i for i in ids if i in reach[i]}
+        tainted = set(cyc)
+        for c in cyc:
+            tainted |= reach[c]
+        keep = [i for i in ids if i not in tainted]
+        # topological order of the kept blocks
+        order = []
+        seen = set()
+
+        def visit(u):
+            if u in seen or u not in keep:
+                return
+            seen.add(u)
+            for v in succ[u]:
+                visit(v)
+            order.append(u)
+        if ids and ids[0] in keep:
+            visit(ids[0])
+        order.reverse()
+        return order
+
     def topo(self):
         """Topological order of reachable blocks; raises if the CFG has a cycle."""
         entry = self.blocks[0]["id"]
@@ -242,8 +280,9 @@ def where(inst):
 class Sym:
     """Gated-SSA term construction for one loop-free function."""
 
-    def __init__(self, fn, opaque_prefixes=("_ZN5verif4sink", "_ZN5verif7io_", "verif_")):
+    def __init__(self, fn, opaque_prefixes=("_ZN5verif4sink", "_ZN5verif7io_", "verif_"), prefix_only=False):
         self.fn = fn if isinstance(fn, Func) else Func(fn)
+        self.prefix_only = prefix_only
         self.val = {}
         self.calls = []
         self.stores = []        # stores to non-local memory
@@ -307,7 +346,9 @@ class Sym:
     # ---- main walk ----
     def _run(self):
         fn = self.fn
-        order = fn.topo()
+        order = fn.acyclic_prefix() if self.prefix_only else fn.topo()
+        if not order:
+            raise AnalysisBroken("function %s has no acyclic prefix" % fn.name)
         entry = order[0]
         # edge conditions
         incoming = {b: [] for b in order}   # b -> [(pred, cond)]
@@ -1288,3 +1329,153 @@ def _to_bits(t, width, aw, memo):
         return [x if x == y else _top(x, y) for x, y in zip(a, b)]
     deps = frozenset((a, -1) for a in atoms(t))
     return [('top', deps)] * width
+
+
+# --------------------------------------------------------------------------
+# D-dep on cyclic CFGs: label propagation to a fixed point
+# --------------------------------------------------------------------------
+class Taint:
+    """May-dependence labels for every SSA value of a function whose CFG may
+    contain loops.  Sources: arguments (arg_labels: index -> label) and calls
+    (call_label(inst) -> label or None: a label *replaces* the union of the
+    argument labels, i.e. the call is an abstraction barrier).  Memory: each
+    alloca is one weakly-updated cell; other memory carries label 'mem'.
+    Data dependence only (operands, phi inputs, select conditions); branch
+    conditions are exposed separately via cond_labels()."""
+
+    def __init__(self, fn, arg_labels, call_label=None):
+        self.fn = fn if isinstance(fn, Func) else Func(fn)
+        self.lab = {}
+        self.cell = {}
+        self.pts = {}
+        self.arg_labels = arg_labels
+        self.call_label = call_label or (lambda inst: None)
+        self.call_args = {}
+        self._run()
+
+    def _op(self, o):
+        k = o["k"]
+        if k == "v":
+            return self.lab.get(o["id"], frozenset())
+        if k == "arg":
+            l = self.arg_labels.get(o["i"])
+            return frozenset([l]) if l else frozenset()
+        return frozenset()
+
+    def _ptr(self, o):
+        if o["k"] == "v":
+            return self.pts.get(o["id"], frozenset())
+        if o["k"] == "arg":
+            return frozenset([("arg", o["i"])])
+        return frozenset()
+
+    def _run(self):
+        changed = True
+        rounds = 0
+        while changed:
+            changed = False
+            rounds += 1
+            if rounds > 200:
+                raise AnalysisBroken("taint analysis did not converge on %s" % self.fn.name)
+            for b in self.fn.blocks:
+                for i in b["insts"]:
+                    op = i["op"]
+                    ops = i["ops"]
+                    new = None
+                    npts = None
+                    if op == "alloca":
+                        npts = frozenset([("alloca", i["id"])])
+                        new = frozenset()
+                    elif op in ("getelementptr", "bitcast", "addrspacecast"):
+                        npts = self._ptr(ops[0])
+                        new = frozenset().union(*[self._op(o) for o in ops])
+                    elif op in ("phi", "select"):
+                        npts = frozenset().union(*[self._ptr(o) for o in ops])
+                        new = frozenset().union(*[self._op(o) for o in ops])
+                    elif op == "load":
+                        p = self._ptr(ops[0])
+                        new = self._op(ops[0])
+                        for obj in p:
+                            if obj[0] == "alloca":
+                                new = new | self.cell.get(obj, frozenset())
+                            else:
+                                l = self.arg_labels.get(("mem", obj[1]))
+                                new = new | frozenset([l or "mem"])
+                        if not p:
+                            new = new | frozenset(["mem"])
+                    elif op == "store":
+                        v = self._op(ops[0]) | self._op(ops[1])
+                        for obj in self._ptr(ops[1]):
+                            old = self.cell.get(obj, frozenset())
+                            if not v <= old:
+                                self.cell[obj] = old | v
+                                changed = True
+                        continue
+                    elif op in ("call", "invoke"):
+                        name = i.get("callee") or ""
+                        if name.startswith(IGNORED_INTRINSICS):
+                            continue
+                        nargs = i.get("nargs", len(ops) - 1)
+                        al = [self._op(o) for o in ops[:nargs]]
+                        self.call_args[i["id"]] = al
+                        l = self.call_label(i)
+                        if l is not None:
+                            new = frozenset([l])
+                        else:
+                            new = frozenset().union(*al) if al else frozenset()
+                            if name.startswith("llvm.memcpy") or name.startswith("llvm.memmove"):
+                                src = frozenset()
+                                for obj in self._ptr(ops[1]):
+                                    src = src | (self.cell.get(obj, frozenset()) if obj[0] == "alloca" else frozenset(["mem"]))
+                                for obj in self._ptr(ops[0]):
+                                    old = self.cell.get(obj, frozenset())
+                                    if not src <= old:
+                                        self.cell[obj] = old | src
+                                        changed = True
+                            else:
+                                # a callee may write through pointer arguments
+                                for o in ops[:nargs]:
+                                    for obj in self._ptr(o):
+                                        old = self.cell.get(obj, frozenset())
+                                        if not new <= old:
+                                            self.cell[obj] = old | new
+                                            changed = True
+                    elif op in ("br", "switch", "ret", "unreachable", "resume"):
+                        continue
+                    else:
+                        new = frozenset().union(*[self._op(o) for o in ops]) if ops else frozenset()
+                    if new is not None and self.lab.get(i["id"]) != new:
+                        if not new <= self.lab.get(i["id"], frozenset()) or i["id"] not in self.lab:
+                            self.lab[i["id"]] = self.lab.get(i["id"], frozenset()) | new
+                            changed = True
+                    if npts is not None and self.pts.get(i["id"]) != npts:
+                        if not npts <= self.pts.get(i["id"], frozenset()):
+                            self.pts[i["id"]] = self.pts.get(i["id"], frozenset()) | npts
+                            changed = True
+
+    def ret_labels(self):
+        out = frozenset()
+        for b in self.fn.blocks:
+            t = b["insts"][-1]
+            if t["op"] == "ret" and t["ops"]:
+                out = out | self._op(t["ops"][0])
+        return out
+
+    def cond_labels(self):
+        """labels of every conditional branch / switch condition: [(inst, labels)]"""
+        out = []
+        for b in self.fn.blocks:
+            t = b["insts"][-1]
+            if t["op"] == "br" and len(t["ops"]) == 3:
+                out.append((t, self._op(t["ops"][0])))
+            elif t["op"] == "switch":
+                out.append((t, self._op(t["ops"][0])))
+        return out
+
+    def calls(self, prefix):
+        out = []
+        for b in self.fn.blocks:
+            for i in b["insts"]:
+                if i["op"] in ("call", "invoke") and (i.get("callee") or "").startswith(prefix):
+                    out.append(i)
+        return out
